@@ -5,13 +5,12 @@ CONSTANTS
   NStreams = 2
   MaxCommits = 3
   MaxSaves = 2
-  Faults = {"open", "write", "sync", "rename", "close"}
+  Faults = {"open", "write", "sync", "unlink", "rename", "close"}
   MaxFaults = 2
-  D_RenameAfterFailedStep = TRUE
-  D_NoFsync = TRUE
+  D_RenameAfterFailedStep = FALSE
+  D_NoFsync = FALSE
   MidSaveCommits = TRUE
   CrashAction = TRUE
-  Unconditional = FALSE
   DoExport = TRUE
   MaxIno = 4
 INVARIANTS TypeOK AlwaysLoadable NeverAhead DurableBeforeReplace FailedStepKeepsOld Export
